@@ -566,10 +566,16 @@ class Walker:
         keys = self._body_writes(body, st)
         if ("ALL",) in keys:
             self.bump_all(st)
+            if tag == "" and body:
+                self.emit(st, "loophavoc", body[0], name=lid, lid=lid, fields={"*": st.gepoch})
             return
         for k in keys:
             st.gepoch += 1
             st.epochs[k] = st.gepoch
+        if tag == "" and body and keys:
+            # which fields the body may write, and the read epoch from which on a read sees the loop's own writes: a value read
+            # before the loop (a hoisted local) has a smaller one
+            self.emit(st, "loophavoc", body[0], name=lid, lid=lid, fields={k[1]: st.epochs[k] for k in keys if k[0] == "F"})
         if keys:
             names = {k[1] for k in keys if k[0] == "F"}
             for fk in list(st.fields):
